@@ -122,6 +122,34 @@ HARNESS_BIN = HARNESS / "target" / "release" / "rxharness"
 DRIVER_BIN = LEAN / ".lake" / "build" / "bin" / "rxdriver"
 
 
+def _run_harness_chunk(chunk):
+    """Run the harness on a chunk; if the watchdog ended it (status 17: a case blocked for ever),
+    keep what was printed and re-submit the cases that had not been reached."""
+    out_all, errs = "", []
+    todo = list(chunk)
+    for _ in range(50):
+        if not todo:
+            break
+        text = "".join(c.text() for c in todo)
+        rc, out, err = _run_bin(HARNESS_BIN, text)
+        out_all += out
+        if rc == 17:
+            hung = None
+            for line in out.splitlines():
+                if line.endswith(" HANG"):
+                    hung = line.split(" ")[0].rpartition(".")[0]
+            ids = [c.cid for c in todo]
+            if hung in ids:
+                todo = todo[ids.index(hung) + 1:]
+                continue
+            errs.append("harness watchdog fired but no HANG line")
+            break
+        if rc != 0:
+            errs.append(f"harness rc={rc}: {err[-2000:]}")
+        break
+    return out_all, errs
+
+
 def run_both(cases, jobs=None):
     """Assign ids, run harness and driver on all cases, return (impl, model)."""
     jobs = jobs or JOBS
@@ -133,12 +161,11 @@ def run_both(cases, jobs=None):
     impl, model = {}, {}
     errs = []
     with cf.ThreadPoolExecutor(max_workers=jobs) as ex:
-        fi = [ex.submit(_run_bin, HARNESS_BIN, t) for t in texts]
+        fi = [ex.submit(_run_harness_chunk, ch) for ch in chunks]
         fm = [ex.submit(_run_bin, DRIVER_BIN, t) for t in texts]
         for f in fi:
-            rc, out, err = f.result()
-            if rc != 0:
-                errs.append(f"harness rc={rc}: {err[-2000:]}")
+            out, es = f.result()
+            errs += es
             impl.update(parse_out(out))
         for f in fm:
             rc, out, err = f.result()
